@@ -177,6 +177,10 @@ def assume_invariants(run, o):
 def normal_exit(run, fs, res, rep):
     rep.normal_exits += 1
     run.result_value = res
+    if run.opts.fault_mode and getattr(run, 'swallowed_faults', 0):
+        # fault mode: a callback failed on this path, an exception handler caught it and the function returns normally
+        run.oblige(f"{fs.key}/raises/CallbackError/propagates", False, kind='raises_post', clause='fault_propagates', function=fs.key,
+                   detail='an exception raised by a callback is caught by a handler and the call returns normally')
     key = fs.key
     selfv = run.self_obj
     if fs.kind == 'init':
